@@ -10,7 +10,7 @@ Counterexamples are replayed: the predicate rendered by the library to SQL is ev
 in T' is asked to the real `DataType::contains`.
 ON-clause narrowing goes through the same filter code; join kinds are exercised by C07.
 """
-import os, sys, json, random, sqlite3
+import os, sys, json, random, sqlite3, re
 sys.path.insert(0, os.path.join(os.path.dirname(os.path.abspath(__file__)), "..", "lib"))
 import mir, smt, kern, driver, gen, exprsem, dtsem
 from common import Check, seed
@@ -137,6 +137,43 @@ def main():
             meta["W/%d" % ci] = dict(witness=True)
         if ci < 6 or ci % 60 == 0:
             ck.sample(dict(type=json.dumps(T)[:300], predicate=gen.show(p), narrowed=ans.get("s")))
+    # ------------------------------------------------------------------ K: the per-type variants of the comparison kernels
+    # narrowing uses least / greatest / the comparisons on every ordered type; dates, times and strings are opaque to the
+    # encoder, but their kernels only call Ord / PartialOrd: read as points of an integer line (math mode), every variant
+    # must compute the same function as the integer variant, for all pairs of arguments
+    n_variant = 0
+    for F in ("Gt", "Lt", "GtEq", "LtEq", "Least", "Greatest"):
+        bankm = exprsem.Bank(fns, "math")
+        base = bankm.kernel_name(F, 0)
+        if base is None:
+            ck.inconclusive("integer kernel of %s not found" % F)
+            continue
+        try:
+            k0 = mir.kernel(fns, base, "math", arg_names=["x", "y"])
+        except mir.NotTranslatable as ex:
+            ck.inconclusive("integer kernel of %s not translatable: %s" % (F, ex))
+            continue
+        for idx in range(1, 12):
+            name = bankm.kernel_name(F, idx)
+            if name is None:
+                break
+            tys = [t for _, t in fns[name].args[1:]]
+            if not tys or any(t not in mir.ORD_TYPES for t in tys):
+                continue
+            try:
+                kv = mir.kernel(fns, name, "math", arg_names=["x", "y"])
+            except mir.NotTranslatable as ex:
+                ck.inconclusive("%s variant %s is not translatable: %s" % (F, name, ex))
+                continue
+            decls = ["(declare-const x Int)", "(declare-const y Int)"] + [d_ for d_ in kv["decls"] + k0["decls"] if not re.match(r"\(declare-const (x|y) ", d_)]
+            rng = ["(<= 1 x)", "(<= x 80000)", "(<= 1 y)", "(<= y 80000)"]
+            qid = "K/%s/%s" % (F, tys[0].split("::")[-1])
+            queries.append(dict(id=qid, script="\n".join(decls + ["(assert %s)" % a for a in rng + kv["side"] + k0["side"] + ["(not (= %s %s))" % (kv["ret"].t, k0["ret"].t)]]), values=["x", "y"], solvers=["z3new", "cvc5"]))
+            meta[qid] = dict(variant=True, F=F, ty=tys[0].split("::")[-1], kernel=name)
+            n_variant += 1
+    if n_variant == 0:
+        ck.inconclusive("no ordered-type variant of the comparison kernels was found")
+
     results = smt.solve_all(queries, tq, workers=14, progress=2000)
     ck.count(results)
     d = driver.Driver(30.0)
@@ -150,6 +187,25 @@ def main():
         if r["status"] != "sat":
             continue
         replayed += 1
+        if info.get("variant"):
+            x, y = int(r["model"]["x"]), int(r["model"]["y"])
+            mkv = {"NaiveDate": lambda v: {"t": "Date", "v": str(730000 + v)}, "NaiveTime": lambda v: {"t": "Time", "v": str(v * 1000000000)},
+                   "NaiveDateTime": lambda v: {"t": "DateTime", "v": str((730000 * 86400 + v) * 1000000000)}, "String": lambda v: {"t": "Text", "v": "s%06d" % v}}[info["ty"]]
+            rv = d.call(dict(op="fn_value", f=info["F"], args=[mkv(x), mkv(y)]))
+            exp = {"Gt": x > y, "Lt": x < y, "GtEq": x >= y, "LtEq": x <= y, "Least": min(x, y), "Greatest": max(x, y)}[info["F"]]
+            got = rv.get("ok")
+            if got is not None and got.get("t") == "Optional":
+                got = got.get("v")
+            if got is None:
+                ck.inconclusive("variant counterexample %s: fn_value failed: %s" % (r["id"], json.dumps(rv)[:200]))
+                continue
+            good = (got.get("v") == exp) if isinstance(exp, bool) else (json.dumps(got, sort_keys=True) == json.dumps(mkv(exp), sort_keys=True))
+            if not good:
+                ck.violation("kernel-variant=%s/%s/differs-from-integer-variant" % (info["F"], info["ty"]), "%s on %s values: %s(%s, %s) = %s, the order of the type gives %s (narrowing of comparisons on that type then keeps the wrong side)" % (
+                    info["F"], info["ty"], info["F"], mkv(x)["v"], mkv(y)["v"], rv.get("s") or json.dumps(got), mkv(exp)["v"] if not isinstance(exp, bool) else exp), dict(F=info["F"], ty=info["ty"], x=x, y=y))
+            else:
+                ck.inconclusive("variant counterexample %s did not reproduce: %s(%d, %d) = %s" % (r["id"], info["F"], x, y, json.dumps(got)))
+            continue
         T, p, T2 = info["T"], info["p"], info["T2"]
         row, sqlrow = {}, {}
         for f, ft in T["fields"]:
@@ -195,7 +251,7 @@ def main():
         explanation="one query per (struct type, predicate): all rows of the type are symbolic (bit-vectors / doubles / NULL flags)",
         programs=n_prog, skipped_unsupported=n_unsupported, skipped_reasons=why, witnesses_satisfiable=n_w_sat,
         functions_encoded=sorted(k for k in exprsem.Bank(fns, "bv").inj.values())[:4] + ["comparison / boolean / arithmetic kernels of function.rs as instantiated per predicate"],
-        bounds=dict(columns="2-3", predicate_depth="<= 3", types="boundary grid of lib/gen.py", outside=["text / date predicates", "ON clauses per join kind (C07)", "predicates containing functions outside the supported core"]),
+        bounds=dict(columns="2-3", predicate_depth="<= 3", types="boundary grid of lib/gen.py", outside=["text / date predicates on struct types (the per-type kernel variants are covered by part K)", "ON clauses per join kind (C07)", "predicates containing functions outside the supported core"]),
         evaluations=len(queries), distinct_nontrivial=len(set(q["script"] for q in queries)),
     )
     return ck.finish(cov, assumptions=["predicate truth = SQL semantics over the MIR-translated kernels (dispatch model of lib/exprsem.py); every counterexample is re-evaluated by SQLite on the SQL the library renders",
